@@ -168,12 +168,12 @@ def step (st : St) (line : String) : St × List String :=
       | some u => Rtl.cycleOptRom st.arch (fun op => (u.lookup op).getD []) st.prog st.data st.rtl p
     ({ st with hst := hst', rtl := rtl' }, [line, yl, rtlDump st.hw rtl'])
   | "T" :: _ =>
-    let hst : Option State := match st.hw with
-      | none => none
+    let (hst, note) : Option State × List String := match st.hw with
+      | none => (none, [])
       | some h => match (do let s0 ← h.d.init; h.d.cycle h.clk s0 [(h.reset, 1)]) with
-        | .ok s => some s
-        | .error _ => none
-    ({ st with vm := some (Isa.init st.arch), hst, rtl := Rtl.reset st.arch }, [line])
+        | .ok s => (some s, [])
+        | .error e => (none, ["HI hdl-cannot-be-initialised " ++ e])
+    ({ st with vm := some (Isa.init st.arch), hst, rtl := Rtl.reset st.arch }, [line] ++ note)
   | "V" :: rest =>
     let ins := nats ((kv rest "in").getD "")
     let iv := bools ((kv rest "iv").getD "")
